@@ -372,30 +372,13 @@ def run(ctx, chk):
         return chk.finish('anchors missing')
     partition = status_partition(ctx, chk)
     grouped = {}
-    for enc in osp.all_encodings():
-        name = osp.enc_name(enc)
-        ref = sm83.TABLE[enc]
+
+    def per_case(enc, cname, ref, variant, args, er, cons, label):
         try:
-            opv, ln, cy = sp.decoded(enc)
+            summ = em.summarise_emit(er, rm)
         except absint.Abort as e:
-            chk.error('decode(%s): %s' % (name, e.why))
-            continue
-        variant, args = canon_op(opv)
-        ers = sp.emit(enc)
-        if variant == 'Invalid':
-            if any(r.status == 'ok' for r in ers):
-                chk.fail('C01.9', name, 'encode_op emits code for Op::Invalid', efile, None)
-            continue
-        if len(ers) != 1 or ers[0].status != 'ok':
-            chk.fail('C01.9', name, '%s: encode_op does not produce exactly one code sequence: %s'
-                     % (ref['mn'], [(r.status, str(r.detail)[:80]) for r in ers][:3]), efile, None)
-            continue
-        chk.ok('C01.9', name, nontrivial=False)
-        try:
-            summ = em.summarise_emit(ers[0], rm)
-        except absint.Abort as e:
-            chk.error('emitter summary for %s: %s' % (name, e.why))
-            continue
+            chk.error('emitter summary for %s: %s' % (cname, e.why))
+            return
         # which helper each bus template embeds (from the emitted bytes, not from the table)
         refs = em.fn_addr_refs(summ)
         helpers_ok = True
@@ -405,7 +388,7 @@ def run(ctx, chk):
             inside = [(o, h, ok) for (o, h, ok) in refs if t['off'] <= o < t['off'] + t['size']]
             if len(inside) != 1 or not inside[0][2]:
                 helpers_ok = False
-                chk.fail('C01.5', name + ':helpers', '%s: template %s embeds %d bus helper addresses (expected one '
+                chk.fail('C01.5', cname + ':helpers', '%s: template %s embeds %d bus helper addresses (expected one '
                          'complete 8-byte address)' % (ref['mn'], t['name'], len(inside)), efile, t['site'][1])
             else:
                 t['helper'] = inside[0][1]
@@ -413,11 +396,11 @@ def run(ctx, chk):
                                                      for t in summ['templates'])]
         if stray:
             helpers_ok = False
-            chk.fail('C01.5', name + ':helpers', '%s: code outside the bus templates embeds helper addresses %s'
+            chk.fail('C01.5', cname + ':helpers', '%s: code outside the bus templates embeds helper addresses %s'
                      % (ref['mn'], stray), efile, None)
         if not helpers_ok:
-            continue
-        paths = [osp.summarise_interp(r) for r in sp.interp(enc)]
+            return
+        paths = [osp.summarise_interp(r) for r in sp.interp(enc, cons, label)]
         okp = [p for p in paths if p['result'].status == 'ok']
         same_operand = (enc[0] is None and (enc[1] >> 6) == 2 and (enc[1] & 7) == 7)
         span = summ['span']
@@ -430,7 +413,7 @@ def run(ctx, chk):
             for p in okp:
                 v = p['cond'].get(bit) if bit else None
                 if v is None:
-                    chk.fail('C01.7', name, '%s: emitted code branches on flag mask %r but an interpreter path is not '
+                    chk.fail('C01.7', cname, '%s: emitted code branches on flag mask %r but an interpreter path is not '
                              'decided by that flag' % (ref['mn'], span['mask']), efile, None)
                     continue
                 runs = (v == 1) == span['runs_when_set']
@@ -439,11 +422,11 @@ def run(ctx, chk):
             # rule 7
             bounds = set(t['off'] for t in summ['templates']) | {summ['total']}
             if span['end'] != summ['total'] or span['end'] not in bounds or span['start'] not in bounds:
-                chk.fail('C01.7', name, '%s: host branch displacement %d skips to offset %d, instruction code ends at %d'
+                chk.fail('C01.7', cname, '%s: host branch displacement %d skips to offset %d, instruction code ends at %d'
                          % (ref['mn'], span['disp'], span['end'], summ['total']), efile,
                          [t for t in summ['templates'] if t['spec']['kind'] == 'jcc'][0]['site'][1])
             else:
-                chk.ok('C01.7', name, sample={'opcode': name, 'mask': span['mask'], 'jcc': span['jcc'],
+                chk.ok('C01.7', cname, sample={'opcode': cname, 'mask': span['mask'], 'jcc': span['jcc'],
                                               'disp': span['disp'], 'code_len': summ['total']})
         if span is None and len(set(p['taken'] for p in okp if 'taken' in p)) > 1:
             pass
@@ -451,7 +434,7 @@ def run(ctx, chk):
         all_flags = []
         for okey, (plist, runs) in sorted(outcomes.items()):
             sim = EmitSim(summ, rm, shapes, runs).run()
-            key = name if okey == 'uncond' else '%s:%s' % (name, okey)
+            key = cname if okey == 'uncond' else '%s:%s' % (cname, okey)
             # ---- rule 3: PC
             bad = None
             for p in plist:
@@ -471,7 +454,7 @@ def run(ctx, chk):
             if bad:
                 chk.fail('C01.3', key, '%s: %s' % (ref['mn'], bad), efile, None)
             else:
-                chk.ok('C01.3', key, sample={'opcode': name, 'outcome': okey, 'pc': fmt(sim.ip) if sim.ip else 'popped'}
+                chk.ok('C01.3', key, sample={'opcode': cname, 'outcome': okey, 'pc': fmt(sim.ip) if sim.ip else 'popped'}
                        if sim.ip_kind != 'advance' and enc[1] % 8 == 0 else None)
             # ---- rule 4: status
             ist = set(p['status'] for p in plist)
@@ -490,7 +473,7 @@ def run(ctx, chk):
                 chk.fail('C01.5', key, '%s: %s' % (ref['mn'], bad[1]), efile, None)
             else:
                 chk.ok('C01.5', key, nontrivial=bool(sim.bus),
-                       sample={'opcode': name, 'bus': [(b[0], fmt(b[1]) if b[1] else None) for b in sim.bus]}
+                       sample={'opcode': cname, 'bus': [(b[0], fmt(b[1]) if b[1] else None) for b in sim.bus]}
                        if sim.bus and enc[1] % 16 == 5 else None)
             # ---- rule 6: host stack
             if sim.errors or sim.hstack:
@@ -511,10 +494,10 @@ def run(ctx, chk):
             extra -= {'F'}
         extra -= {'F'}
         if missing or extra:
-            chk.fail('C01.1', name, '%s: interpreter changes %s, emitted templates write %s'
+            chk.fail('C01.1', cname, '%s: interpreter changes %s, emitted templates write %s'
                      % (ref['mn'], sorted(ch), sorted(all_writes)), efile, None)
         else:
-            chk.ok('C01.1', name, nontrivial=bool(ch))
+            chk.ok('C01.1', cname, nontrivial=bool(ch))
         # ---- rule 2: flags
         icls = flag_classes(okp)
         ecls = ''
@@ -524,10 +507,32 @@ def run(ctx, chk):
         if same_operand:
             icls = ''.join(e if (e == '*' and i in '01*') else i for i, e in zip(icls, ecls))
         if icls == ecls:
-            chk.ok('C01.2', name, nontrivial=(icls != '----'))
+            chk.ok('C01.2', cname, nontrivial=(icls != '----'))
         else:
-            chk.fail('C01.2', name, '%s: interpreter flag effect ZNHC = %s, emitted flag templates give %s'
+            chk.fail('C01.2', cname, '%s: interpreter flag effect ZNHC = %s, emitted flag templates give %s'
                      % (ref['mn'], icls, ecls), efile, None)
+
+    for enc in osp.all_encodings():
+        name = osp.enc_name(enc)
+        ref = sm83.TABLE[enc]
+        try:
+            opv, ln, cy = sp.decoded(enc)
+        except absint.Abort as e:
+            chk.error('decode(%s): %s' % (name, e.why))
+            continue
+        variant, args = canon_op(opv)
+        if variant == 'Invalid':
+            if any(r.status == 'ok' for r in sp.emit(enc)):
+                chk.fail('C01.9', name, 'encode_op emits code for Op::Invalid', efile, None)
+            continue
+        cases, badp = sp.emit_cases(enc)
+        if badp or not cases:
+            chk.fail('C01.9', name, '%s: encode_op does not complete for every operand value: %s'
+                     % (ref['mn'], [(r.status, str(r.detail)[:80]) for r in badp][:3]), efile, None)
+            continue
+        chk.ok('C01.9', name, nontrivial=False)
+        for label, er, cons in cases:
+            per_case(enc, name + label, ref, variant, args, er, cons, label)
     for gk, lst in sorted(grouped.items()):
         chk.rules['C01.5']['instances'] -= 1
         chk.rules['C01.5']['failures'] -= 1
